@@ -112,6 +112,29 @@ def uri():
 	return o
 
 
+@section
+def startline():
+	from httoop.messages.method import Method
+	from httoop.messages.protocol import Protocol
+	from httoop.status import Status
+	from httoop.version import ServerProtocol
+	o = ['/-! method.py / protocol.py / status.py -/']
+	def pat(r):
+		return '(%s, %d)' % (lbytes(r.pattern), r.flags)
+	o.append('def methodRe : List UInt8 × Nat := %s' % pat(Method.METHOD_RE))
+	o.append('def statusRe : List UInt8 × Nat := %s' % pat(Status.STATUS_RE))
+	o.append('def protocolRe : List UInt8 × Nat := %s' % pat(Protocol.PROTOCOL_RE))
+	import re
+	o.append('def methodReExpected : List UInt8 × Nat := (%s, %d)' % (lbytes(b'^[A-Z0-9$-_.]{1,20}\\Z'), re.IGNORECASE))
+	o.append('def statusReExpected : List UInt8 × Nat := (%s, 0)' % lbytes(b'^([1-5]\\d{2})(?:\\s+([\\s\\w]*))\\Z'))
+	o.append('def protocolReExpected : List UInt8 × Nat := (%s, 0)' % lbytes(b'^(HTTP)/(\\d+)\\.(\\d+)\\Z'))
+	o.append('def methodCharTable : List Bool := [' + ', '.join('true' if Method.METHOD_RE.match(bytes([b])) else 'false' for b in range(256)) + ']')
+	o.append('def statusReasonCharTable : List Bool := [' + ', '.join('true' if Status.STATUS_RE.match(b'200 ' + bytes([b])) else 'false' for b in range(256)) + ']')
+	o.append('def protocolDigitTable : List Bool := [' + ', '.join('true' if Protocol.PROTOCOL_RE.match(b'HTTP/1.' + bytes([b])) else 'false' for b in range(256)) + ']')
+	o.append('def serverProtocol : Nat × Nat := (%d, %d)' % tuple(ServerProtocol))
+	return o
+
+
 def generate():
 	body = ['/- GENERATED by harness/extract.py from %s — do not edit. -/' % 'the current /repo working tree', 'namespace Httoop.Gen', '']
 	for sec in SECTIONS:
